@@ -15,10 +15,10 @@ TABLE = {
     "C01": ("provenance / cross-site agreement dataflow over E-DSL templates and constructors",
             "Decides the composition glue only: every decoding component decodes with the map it publishes, registries are keyed by the window's map, wrappers republish the map of the component they connect, adjacent layers agree on forwarded / constant / dropped address bits. Each is a necessary condition of the end-to-end property.",
             "numeric agreement of map and netlist over all hierarchies and addresses (N1, N3)", "6/C01"),
-    "C02": ("CFG effect-ordering (validate-before-mutate), dominance of the frozen guard, must-call on all normal exits, endpoint-kind typing of half-open intervals",
-            "Failure atomicity and frozen-refusal are decided on every CFG path of add_resource / add_window / align_to with interprocedural may-raise / writes summaries; freeze-on-hand-over by post-dominance; interval discipline by a small type system over bisect / comparison sites.",
-            "numeric correctness of _align_up and the bisect indices (N1)", "6/C02"),
-    "C03": ("construction-site ownership, address-unit typing, partition / dispatch shape",
+    "C02": ("CFG effect-ordering (validate-before-mutate), dominance of the frozen guard, must-call on all normal exits, endpoint-kind typing of half-open intervals, modular reduction of the rounding helper, effect summaries of query methods (memo coherence)",
+            "Failure atomicity and frozen-refusal are decided on every CFG path of add_resource / add_window / align_to with interprocedural may-raise / writes summaries; freeze-on-hand-over by post-dominance; interval discipline by a small type system over bisect / comparison sites; _align_up by modular reduction; every query method writes no field of the map or its memo is written by every mutator.",
+            "numeric correctness of the bisect indices beyond the endpoint kinds (N1)", "6/C02"),
+    "C03": ("construction-site ownership, affine address-unit typing with a dependency clause, partition / dispatch shape",
             "Decides that all three traversals share one translation authority (_translate) fed with the window's own stored range, that scale and base are applied on the right side (unit typing), and that the dispatch over resources / windows is a partition in address order.",
             "numeric equality of the traversals over all trees (N1)", "6/C03"),
     "C04": ("template conformance of Multiplexer.elaborate (read half) on the E-DSL model; decision lists by truth table",
@@ -57,7 +57,7 @@ TABLE = {
     "C15": ("decision-list equality; generation-condition `writable`; geometry expressions",
             "ack' = !ack & cyc & stb, write enable only under writable and inside the request branch with [we -> sel; 0], address/data wiring by port origin call, geometry expressions and frozen map.",
             "read-your-writes relies on amaranth.lib.memory (N4)", "6/C15"),
-    "C16": ("fold idiom of the synchroniser chain; per-case value table; decision-list equality; index agreement",
+    "C16": ("fold idiom of the synchroniser chain or the verified shift-register shape; per-case value table; decision-list equality; index agreement",
             "Synchroniser depth = iteration count of a sync-domain carrier chain, mode table per PinMode member with comb defaults filled in, set/clr decode and output priority list, every per-pin subscript is the loop index, register order and field shapes.",
             "nothing beyond A2/N4", "6/C16"),
     "C17": ("CFG dominance / effect order, push-pop pairing, argument provenance",
@@ -66,8 +66,8 @@ TABLE = {
     "C18": ("must-pass-through, must-call, taint, monotone flag, idiom conformance",
             "Every namespace mutation is preceded on all paths by an availability query over the same names with a raising failure edge; names are canonicalised first; str() never reaches the deciding comparison; verdict flag is monotone; the prefix test is one of two hand-verified idioms.",
             "soundness/completeness of the prefix loop beyond idiom recognition (N1)", "6/C18"),
-    "C19": ("cross-invocation effect analysis, recursion classification, set-iteration lint, who-may-call, raise-type discipline, path-typed join",
-            "No state carried from one elaboration to the next, every recursion structural or bounded, no set iteration without sorted(), metadata mutators unreachable from elaborate(), explicit raises are ValueError/TypeError (frozen exception table), path-typed values are str-mapped before join.",
+    "C19": ("cross-invocation effect analysis, recursion / while-loop variant classification, set-iteration lint, who-may-call, raise-type discipline, path-typed join, optional-member guards, non-emptiness proofs for reducers without an identity",
+            "No state carried from one elaboration to the next, every recursion structural or bounded, no set iteration without sorted(), metadata mutators unreachable from elaborate(), explicit raises are ValueError/TypeError (frozen exception table), path-typed values are str-mapped before join, optional bus members are accessed under their feature test, reduce/max/min/next without identity only on provably non-empty collections.",
             "absence of every internal exception inside Amaranth calls (N4)", "6/C19"),
     "C20": ("two-point port polarity type system; driver/polarity agreement; signature parameter-set agreement",
             "Target ports type as In(initiator signature), every driver of a port member is an output under the port's polarity, connect() arguments have opposite polarity, signature parameters agree across __init__/__eq__/create()/interface constructor, optional members follow features.",
